@@ -128,9 +128,9 @@ structure Comment where
   deriving DecidableEq, Repr, Inhabited
 
 namespace Comment
-def isStripChar (c : Char) : Bool := c = '#' || c = ' ' || c = '\t'
+def isStripChar (c : Char) : Bool := c = '#' || c = ' ' || c = '\t' || c = '\r'
 
-/-- `line.strip('# \t')` -/
+/-- `line.strip('# \t\r')` -/
 def stripLine (cs : List Char) : List Char :=
   ((cs.dropWhile isStripChar).reverse.dropWhile isStripChar).reverse
 
@@ -251,7 +251,8 @@ def value (a : Attribute) : Scalar :=
 def formatValues : List Scalar → String → List String
   | [], _ => []
   | v :: rest, qualifier =>
-    if v = .str "not" then formatValues rest "not " else (qualifier ++ v.pyStr) :: formatValues rest ""
+    if v = .none then formatValues rest qualifier   -- omitted optional argument (lark's `None` placeholder) is not printed
+    else if v = .str "not" then formatValues rest "not " else (qualifier ++ v.pyStr) :: formatValues rest ""
 
 def render (a : Attribute) : String :=
   if a.isFlag then "@" ++ a.name
